@@ -6,3 +6,9 @@ open SaoVerif
 #print axioms C15_full
 #print axioms C15_getSps_rejects
 #print axioms randomIndex_spec
+#print axioms C03_nonstaking_independent
+#print axioms C03_partial
+#print axioms C03_refuted
+#print axioms C03_statement_refuted
+#print axioms C20_share_check_sound
+#print axioms C20_refuted
